@@ -296,6 +296,10 @@ def c20_cases(tier):
         [(w1, w2) for w1 in ARGS1T for w2 in ARGS1T]
     for w1, w2 in pairs:
         add('opt.args2.%s.%s' % (wn(w1), wn(w2)), [D('opt', [N, w1, w2])])
+    # every typed argument position: the per-position type bits reach argument 5 (MAX_TYPECHECK); 6 arguments: the last one is beyond the typed positions
+    add('opt.args5.typed', [D('opt', [N] + [('b', 'x')] * 5)], desc='five one-byte arguments, take flags symbolic: every typed position;')
+    if not q:
+        add('opt.args6.typed', [D('opt', [N] + [('b', 'x')] * 6)], desc='six one-byte arguments: the sixth lies beyond the typed positions;')
     add('opt.args1.bx.nopt2', [D('opt', [N, ('b', 'x')])], nopt=2)
     add('opt.args1.bx.name2', [D('opt', [('b', 'ax'), ('b', 'x')])], namelen=2)
     if not q:
